@@ -1,6 +1,7 @@
 import A2Verif.Lemmas.FsCpmModify
 import A2Verif.Lemmas.FsCpmRename3
 import A2Verif.Lemmas.FsCpmPut2
+import A2Verif.Lemmas.FsCpmPutAbs3
 import A2Verif.Lemmas.FsCpmQuery
 import A2Verif.Lemmas.FsCpmFormat
 import A2Verif.Lemmas.FsCpmCheck
@@ -28,8 +29,13 @@ false (defect found by this proof; direct oracle `user-prefix-alias-refused` in 
 failure in the middle of the write loops — preserves `Inv` and leaves every file and the listing as they were
 (`put_error_step`); a successful `put` writes data into blocks that were neither reserved nor referenced and saves a
 directory that still holds every old file entry in its place (`put_success_frame_partial`).
-Partial: the full refinement of a *successful* `put` (the new file reads back, `Inv` afterwards) and of `protect`,
-`unprotect` is not proved here (see `design/FsCpm.md`); they are tied to the real code by the byte-exact harness tie.
+A successful `put` of a file image in the class `PutArgsOk` (on a consistent disk parameter block, `DpbPut`): the new
+directory entries are characterised exactly (`put_success_entries`: header, one entry per physical extent that holds a chunk,
+extent numbers, pointer slots against chunk indices, data blocks, record counts giving CP/M's length rule, all pointers
+pairwise different) and the invariant holds afterwards (`put_success_inv`).
+Partial: `stepOk … (.put …) true` for a successful `put` (the assembly of the reading of the new file from
+`put_success_entries`) and the refinement of `protect`, `unprotect` are not proved here (see `design/FsCpm.md`); they are tied to
+the real code by the byte-exact harness tie.
 -/
 namespace A2Verif.FsCpm
 open A2Verif.Fs.Cpm
@@ -98,6 +104,34 @@ theorem put_success_frame_partial {d : Dpb} {r r' : Raw} {f : FImg} {now : Bytes
   rcases put_outcome h hop with ⟨hf, _⟩ | ⟨_, hd⟩
   · cases hf
   · exact hd.ex
+
+/-- the disk parameter blocks of the harness configurations are consistent in the sense of `DpbPut` -/
+example : DpbPut { bsh := 3, exm := 0, dsm := 127, drm := 47, al0 := 0xC0, al1 := 0, v3 := false } := by decide
+example : DpbPut { bsh := 3, exm := 0, dsm := 184, drm := 63, al0 := 0xC0, al1 := 0, v3 := false } := by decide
+example : DpbPut { bsh := 4, exm := 1, dsm := 196, drm := 63, al0 := 0xC0, al1 := 0, v3 := false } := by decide
+example : DpbPut { bsh := 3, exm := 0, dsm := 174, drm := 63, al0 := 0xC0, al1 := 0, v3 := true } := by decide
+
+/-- **a successful `put`, the new directory entries** (C01/C03/C04, the part of the refinement of `put` that speaks about the
+code's loops): if `put` of a file image in `PutArgsOk` reports success, then the image afterwards is `save_directory` of a
+directory `dir2` over data blocks `sr` such that (`PutFacts`) — every old file entry is in its place; entries that are not
+file entries are untouched or a rewritten time stamp; every new file entry stands where an unused entry stood, carries the
+user number and the blank-padded upper-case name of the file, describes exactly one physical extent `x` (`XEnt`: extent
+number `÷ (exm+1) = x`, EX < 32, S2 < 64, slot `k` holds a fresh block containing chunk `x·slots+k` zero-padded to the block
+size — or 0 when that chunk does not exist —, and the entry of the last extent has the record and byte counts from which the
+reader computes `eofRule eof`); two new entries describe different extents; every chunk's extent has an entry; all non-zero
+pointers of all file entries are pairwise different.  The name was valid and not in the directory. -/
+theorem put_success_entries {d : Dpb} {r r' : Raw} {f : FImg} {now : Bytes} (h : Inv d r) (hr : ResvOk d) (hd : DpbPut d)
+    (ha : PutArgsOk d f) (hop : Fs.Cpm.put d r f now = (.ok (), r')) :
+    ∃ (user : Nat) (name : Bytes) (files : List FileInfo) (sr : Raw) (dir2 : Dir),
+      splitUserFilename f.fullPath = .ok (user, name) ∧ isNameValid name = true ∧
+      buildFiles d d.v3 (dirOf d r) = .ok files ∧ getFile f.fullPath files = none ∧
+      PutFacts d r f user (stringToFileName name).1 (stringToFileName name).2 sr dir2 ∧
+      saveDirectory d sr dir2 = (.ok (), r') := put_facts h hr hd ha hop
+
+/-- **the invariant holds after a successful `put`** (C03, C04 for `put`: the image after an accepted `put` of a file image
+in `PutArgsOk` is read by the independent reader as a well-formed, leak-free volume — `inv_reads_well_formed`) -/
+theorem put_success_inv {d : Dpb} {r r' : Raw} {f : FImg} {now : Bytes} (h : Inv d r) (hr : ResvOk d) (hd : DpbPut d)
+    (ha : PutArgsOk d f) (hop : Fs.Cpm.put d r f now = (.ok (), r')) : Inv d r' := put_success_inv' h hr hd ha hop
 
 /-! ## operations of the concrete model -/
 
@@ -304,5 +338,12 @@ example : Inv { exD with v3 := true } (Fs.Cpm.format { exD with v3 := true } exB
       cases (Fs.Cpm.format { exD with v3 := true } exBlank [86] (some [100, 31, 0, 0])).1 with
       | ok u => intro _; rfl
       | error e => intro h; cases h) rfl)
+
+/-- non-vacuity of `put_success_entries` / `put_success_inv`: the example parameter block and both example file images
+satisfy the hypotheses, and the model's `put` of `exA` on the freshly formatted image reports success -/
+example : DpbPut exD ∧ ResvOk exD ∧ PutArgsOk exD exA ∧ PutArgsOk exD exB := by decide +kernel
+
+set_option maxRecDepth 100000 in
+example : okB (Fs.Cpm.put exD (Fs.Cpm.format exD exBlank [] none).2 exA [0, 0, 0, 0]).1 = true := by decide +kernel
 
 end A2Verif.FsCpm
